@@ -346,6 +346,7 @@ func RunC05(c *Ctx) {
 	if c.Thorough() {
 		window, nrand = 5000, 4000000
 	}
+	workload.W1R(sink)
 	workload.W6Ints(window, nrand, c.Seed, sink)
 	// the byte sweep over number tokens in W1 gives every byte at every position of short literals
 	workload.W1(false, func(cs *h.Case) {
